@@ -798,8 +798,8 @@ func GetCacheControlDirectives(h http.Header) CacheControlDirectives {
 				if len(kv) != 2 {
 					continue
 				}
-				k := strings.Trim(kv[0], " ")
-				v := strings.Trim(kv[1], " ")
+				k := strings.Trim(kv[0], " \t")
+				v := strings.Trim(kv[1], " \t")
 				switch k {
 				case "max-age":
 					maxAge, err := strconv.Atoi(v)
@@ -827,7 +827,7 @@ func GetCacheControlDirectives(h http.Header) CacheControlDirectives {
 					}
 				}
 			} else {
-				d = strings.Trim(d, " ")
+				d = strings.Trim(d, " \t")
 				switch d {
 				case "private":
 					dirs.Private = true
@@ -848,7 +848,7 @@ func allHeaderValues(k string, h http.Header) []string {
 	vals := []string{}
 	for _, vs := range h.Values(k) {
 		for _, s := range strings.Split(vs, ",") {
-			s = strings.Trim(s, " ")
+			s = strings.Trim(s, " \t")
 			vals = append(vals, strings.ToLower(s))
 		}
 	}
